@@ -100,10 +100,14 @@ func (k *checker) runLadder() {
 		if c.Expired() {
 			return
 		}
+		top := n >= 1<<(maxK-1)
 		if k.mine() {
 			in := ladderCloud(n)
 			for mode := range readerModes {
 				k.splatCase(in, "ladder/splat", Case{Kind: "splat-ladder", N: n, Reader: mode})
+			}
+			if top { // the top rungs also with the process limited to three processors (default two)
+				c.WithProcs(3, func() { k.splatCase(in, "ladder/splat", Case{Kind: "splat-ladder", N: n, Reader: rdAll}) })
 			}
 		}
 		for _, version := range []int{1, 2} {
@@ -115,6 +119,11 @@ func (k *checker) runLadder() {
 					k.spzCase(SpzFile{Version: version, Deg: deg, FB: 12, Container: "stored", Family: "ladder", Gen: "ladder", N: n, Reader: mode}, "ladder/spz")
 				}
 				k.spzCase(SpzFile{Version: version, Deg: deg, FB: 12, Container: "deflate", Family: "ladder", Gen: "ladder", N: n, Reader: rdAll}, "ladder/spz")
+				if top {
+					c.WithProcs(3, func() {
+						k.spzCase(SpzFile{Version: version, Deg: deg, FB: 12, Container: "deflate", Family: "ladder", Gen: "ladder", N: n, Reader: rdAll}, "ladder/spz")
+					})
+				}
 			}
 		}
 		for _, cfg := range [][2]int{{31, 45}, {30, 0}} {
